@@ -360,4 +360,5 @@ extern "C" void vf_main(void) {
   if (E::instrumented) vf_assert(vf_tr_live() == live0, "C03: every element constructed was destroyed exactly once by the time the containers are destroyed");
   vf_assert(vf_live_blocks() == 0, "C04: every allocated block was released by the time the containers are destroyed");
   vf_assert(vf_nalloc() == vf_ndealloc(), "C04: allocate/deallocate calls are paired");
+  if (VF_CE) vf_assert(vf_live_blocks() == 0 && vf_nalloc() == vf_ndealloc(), "C08: no unreleased allocation at the end of the evaluation");
 }
